@@ -232,15 +232,22 @@ EXTRA = {
     "C01": " Sub-check headroom: directed generated traces in discipline runs (order near the limit, partial/full cancels and fills, further orders into the freed headroom, starting-price reconciliation, close).",
     "C02": " Sub-check delivery: every created package is executed exactly once unless its market's recording ends first (event groups included).",
     "C05": " Sub-checks resting (passive fills only from volume traded at or through the limit) and replace (a replacement order is judged like a fresh placement, BPE-off lapse included).",
-    "C07": " Sub-check inflight (metamorphic): with vs without a request in flight the order is filled identically until the request takes effect.",
+    "C03": " Sub-check betdaq_stream: the Betdaq order-stream path with real BetdaqOrders (an UPDATING order is released only by a snapshot of its own with a new sequence number; no request is accepted meanwhile). Live schedules include instruction-level TIMEOUT / FAILURE reports.",
+    "C06": " Resting orders carry PERSIST / LAPSE / MARKET_ON_CLOSE persistence; one run in six withdraws another runner while the orders rest.",
+    "C07": " Sub-check inflight (metamorphic): with vs without a request in flight the order is filled identically until the request takes effect. Sub-check combined: 2-3 markets in one recording off a common grid, clock clause at every callback. Without a bet delay an update exactly the latency after the request is not yet due.",
+    "C08": " Withdrawals first visible in the closing definition; directed multi-price taker followed by a removal elsewhere.",
+    "C10": " Directed rules overlap_reset and rejoin_completed_trade.",
+    "C12": " Thorough tier adds packages of four orders (250k combinations). A placement answered TIMEOUT must not be declared complete while its bet rests at the exchange.",
+    "C17": " Probe prices where payout / price does not terminate; an exception out of the validation sweep is a finding.",
+    "C18": " Refused orders submitted again (also through another client), cancel batches failing inside the latency.",
     "C09": " Runs with the pre-play-only listener; removals without a published factor followed by removals with one.",
-    "C11": " One schedule in four runs on a handicap market (the same selection on two lines).",
+    "C11": " One schedule in four runs on a handicap market (the same selection on two lines); directed prefixes (chased replace chain, partial cancel with the stream ahead); instruction-level TIMEOUT / FAILURE reports; runner contexts recounted at quiescent points. Two known findings are replayed on every run.",
     "C13": " Sub-check event_group: A on one market vs B also on a sibling recording of the event; process_orders calls are part of the compared sequence.",
     "C14": " One child process has a wall clock that runs (11 min per reading); scenarios with hourly transaction limits over several simulated hours.",
     "C15": " Status / matched-only filters are checked on every view (strategy, strategy+selection+handicap, client, client+strategy) in the simulated machine and the live invariant; markets re-opened after closure.",
     "C16": " After all queries a removal is applied with the simulation's own routine and every figure is asked for again.",
-    "C19": " Sub-check sim_runs: whole simulation runs over recordings sharing publish times; references shared by a replaced bet and its replacement in the replayed image.",
-    "C20": " Recorder-mode updates with and without a market definition.",
+    "C19": " Sub-check sim_runs: whole simulation runs over recordings sharing publish times; references shared by a replaced bet and its replacement in the replayed image; sub-check betdaq_stream: Betdaq order-stream batches with references of other instances.",
+    "C20": " Recorder-mode updates with and without a market definition; sub-check filters: strategies with different listener filters on one recording (one stream each) are each called once, for their stream's closure.",
 }
 
 NOT_BUILT_REASON = "check not built yet (build in progress; see DESIGN.md section 4)"
